@@ -221,18 +221,22 @@ fn trim_regex<'a>(line: &'a [u8], trim_kind: &Trim, re: &Regex) -> &'a [u8] {
     let mut idx_start = 0;
     let mut idx_end = line.len();
 
+    // when there is only one match, the first is also the last
+    let mut first_match = None;
+
     if trim_kind == &Trim::Both || trim_kind == &Trim::Left {
         if let Some(m) = iter.next() {
             if m.start() == 0 {
                 idx_start = m.end();
             }
+            first_match = Some(m);
         }
     }
 
     if trim_kind == &Trim::Both || trim_kind == &Trim::Right {
-        if let Some(m) = iter.last() {
+        if let Some(m) = iter.last().or(first_match) {
             if m.end() == line.len() {
-                idx_end = m.start();
+                idx_end = m.start().max(idx_start);
             }
         }
     }
